@@ -73,6 +73,10 @@ func (pc *planCase) payload(path string) (any, []*Canary, string) {
 		// a hand-declared type with methods (json.Marshaler, TextMarshaler, Stringer, error): see methods.go
 		pc.nStatic++
 		pl := &planter{n: pc.nStatic * 200}
+		if pc.r.Chance(0.3) {
+			x, name := pl.tagPayload(pc.r.Intn(2*nTagPayloads), path) // tag on an embedded field: see static.go
+			return x, pl.cans, name
+		}
 		if pc.r.Chance(0.5) {
 			x, name := pl.recPayload(pc.r.Intn(3*nRecPayloads), path) // recursive types: see recursive.go
 			return x, pl.cans, name
